@@ -329,7 +329,7 @@ package runtime
 
 // the scope chain first, then the global table
 //@ func (*Task).GetPattern
-//@ props C12
+//@ props C12 C01
 //@ requires ctx.stackCur != nil
 //@ ensures ncalls((*Stack).GetPattern) == 1 && callarg((*Stack).GetPattern, 0, 0) == ctx.stackCur && callarg((*Stack).GetPattern, 0, 1) == pattern
 //@ ensures callres((*Stack).GetPattern, 0, 1) ==> result1 && result0 == callres((*Stack).GetPattern, 0, 0)
